@@ -72,6 +72,10 @@ def cases_for(rng, spec, chain, cases, cls):
         # first of the stream, which the reader trusts as a mid-document start: judged by C06, not here)
         if spec.get_type(tid) is None or not chain:
             continue
+        # likewise while the position is still undetermined: a chain made of masters with placeholder paths only (a stream that starts with a
+        # global master) does not tell the reader where it is (C11_unchecked_while_undetermined); the writer side above is judged all the same
+        if all(any(isinstance(x, tuple) for x in spec.get_path(m)) for m in chain):
+            continue
         if tag[0] == "s":
             inner = E.Node(("m", tid), rng.choice([None, "u", 2]), [])
         else:
@@ -101,6 +105,15 @@ def generate(rng, tier):
         chains = all_chains(sp, 4) if thorough else walks(rng, sp, 25, 5)
         for ch in chains:
             cases_for(rng, sp, ch, cases, "fixed")
+    # paths with SEVERAL placeholders of every bound shape around a named global master, on every chain up to depth 4 (deterministic:
+    # the interplay of two placeholders is not left to the random specifications)
+    G = 0xA1
+    multi = E.Spec([(0x81, "M", []), (G, "M", [(None, None)]), (0xA2, "M", [0x81]),
+                    (0xE1, "U", [(None, None), G, (None, None)]), (0xE2, "U", [(1, None), G, (0, 2)]), (0xE3, "U", [0x81, (0, 1), G, (1, None)]),
+                    (0xE4, "U", [(None, 2), G]), (0xE5, "U", [0x81, (1, 1), G, (None, 1)]), (0xE6, "U", [(None, None), G, (None, None), G]),
+                    (E.CRC, "B", [(1, None)]), (E.VOID, "B", [(None, None)])])
+    for ch in all_chains(multi, 4):
+        cases_for(rng, multi, ch, cases, "multi")
     for _ in range(150 if thorough else 25):
         sp = E.random_spec(rng, multi=(rng.random() < 0.5))
         for ch in walks(rng, sp, 12 if thorough else 6, 6):
